@@ -221,8 +221,8 @@ func famCmp(g *gen, e *emitter, n int) {
 	vals = append(vals, int64s...)
 	total := len(vals) * len(vals)
 	stride := 1
-	if n > 0 && total*2 > n {
-		stride = total * 2 / n
+	if n > 0 && total*2*len(ops) > n {
+		stride = total * 2 * len(ops) / n
 	}
 	idx := g.r.Intn(stride)
 	cnt := 0
